@@ -39,13 +39,16 @@ TRUSTED_BASE = [
 FACT_USERS = {
     "fnv32": {"hashes", "qf"},
     "fnv64": {"hashes", "bloom", "cbf", "expanding", "cms", "cuckoo", "ondisk"},
-    "bloomLn": {"sizing", "bloom", "cbf", "expanding", "ondisk"},
+    # the sizing constants matter to the properties that look at derived geometry (the sizing suite); for the
+    # others a constant that cannot be read leaves the model's previous value in place and the constructor
+    # lines of their suites show whether the geometry still agrees
+    "bloomLn": {"sizing"},
     "bloom": {"bloom", "cbf", "expanding", "ondisk"},
     "onDisk": {"ondisk"},
     "cbf": {"cbf"},
     "exp": {"expanding"},
     "rot": {"expanding"},
-    "cmsLn": {"sizing", "cms"},
+    "cmsLn": {"sizing"},
     "cms": {"cms"},
     "cuckoo": {"cuckoo"},
     "ccf": {"cuckoo"},
@@ -58,6 +61,8 @@ FACT_USERS = {
 # When such a guard cannot be read any more, the models keep the previous operator and these
 # properties stay tied to the code by the correspondence on the lines they look at.
 GUARD_INDEPENDENT = {"C05", "C13", "C19"}
+# properties that depend on a fact although none of their suites is listed for it in FACT_USERS
+FACT_EXTRA_PROPS = {"bloomLn": {"C06"}}  # C06 pins the documented sizing doubles (C06_sizing_constants_documented)
 
 READ_ONLY = r"\.(chk|stats|obs|export|hashes|jacc|view)\b"
 COUNTERS = ["count", "added", "total", "unique", "subcounts", "estimate", "cfpr", "setbits", "nblooms"]
